@@ -287,3 +287,18 @@ PROPS['C20'] = dict(
     assumptions=['delayed_until has one-second resolution: the stamping instant is accepted within [-6 s, +2 s] of the call',
                  'asynchronous subscriber counters are polled until complete (at most 3 s)'],
 )
+
+
+# ---------------------------------------------------------------- beyond the listed properties
+# Extra checks (ids X..): same driver, same machinery, not part of MANIFEST.json; evidence goes to evidence-extra/.
+PROPS['X01'] = dict(
+    level='model_checking', extra=True,
+    design=[],
+    traces={'BulkReadTrace': dict(module='BulkReadTrace', cfg='BulkReadTrace.cfg')},
+    selftests=[('BulkReadTrace', 'flip', dict(e='offer', field='acked'))],
+    rule='runs = feed scripts for subscriber.BulkRead / BulkReadWithDeduplication: messages (with duplicates) offered after no / short / long pauses, channel closed at any point, '
+         'limits 1..5; non-trivial = the script offers something',
+    exhaustive=False,
+    min_stats={'scripts': 40},
+    assumptions=['gaps are measured by the feeder; the reader\'s timer is trusted within 60 ms'],
+)
